@@ -1,6 +1,21 @@
 /-
-  Property C14 — property theorems only (helper lemmas live next to the model).
-  Stub: nothing claimed yet.
+  Property C14 — id allocator / deposit box: live ids unique, one taker wins, stale ids never
+  match.  Property theorems only; helper lemmas in Babylon/IdAlloc/Lemmas*.lean.
 -/
+import Babylon.IdAlloc.Model
+
 namespace Babylon.Properties.C14
+open Babylon.IdAlloc Babylon.Gen.IdAlloc Babylon.Core
+
+/-- Generated obligations: the source's atomic skeletons (operations, order of operations,
+memory orders) are the ones the model was written against. -/
+theorem gen_skel_allocate : skel_allocate = Skel.allocate := by decide
+theorem gen_skel_deallocate : skel_deallocate = Skel.deallocate := by decide
+/-- pop keeps the version, push bumps it by one, the taker's CAS goes to version + 1;
+sentinels are the two largest values of the id type. -/
+theorem gen_constants :
+    popVersionBump = 0 ∧ pushVersionBump = 1 ∧ takeVersionBump = 1 ∧
+    tail16 = 2 ^ 16 - 1 ∧ active16 = 2 ^ 16 - 2 ∧ tail32 = 2 ^ 32 - 1 ∧ active32 = 2 ^ 32 - 2 ∧
+    sizeofVV16 = 4 ∧ sizeofVV32 = 8 ∧ valueOffset = 0 := by decide
+
 end Babylon.Properties.C14
